@@ -66,6 +66,9 @@ structure Quirks where
   subsSequential : Bool := false
   /-- `bind_function.exp_rename` prefixes one free symbol after the other -/
   renameSequential : Bool := false
+  /-- `bind_function`'s compression loop: `new_e = e.subs(d_exp)` substitutes the known symbols one after the
+  other (in name order), also inside the values it has just put in -/
+  compressSequential : Bool := false
   /-- decopt splices a re-synthesised section in although the re-synthesis renamed a qubit -/
   spliceIgnoresRename : Bool := false
   /-- `UnboundQlassf.bind` injects the bare literal: the declared `Parameter[T]` is dropped -/
@@ -117,6 +120,7 @@ def Quirks.ofList (l : List String) : Quirks :=
     argIndexFromName := l.contains "argIndexFromName"
     subsSequential := l.contains "subsSequential"
     renameSequential := l.contains "renameSequential"
+    compressSequential := l.contains "compressSequential"
     spliceIgnoresRename := l.contains "spliceIgnoresRename"
     bindDropsType := l.contains "bindDropsType"
     modNonPow2 := l.contains "modNonPow2"
